@@ -40,7 +40,7 @@ pub fn shrink_value_steps(v: &DV) -> Vec<DV> {
   let mut out = vec![];
   match v {
     DV::Int(i) => {
-      if *i != 0 {
+      if *i != 0 && *i >= -(1i128 << 64) && *i < (1i128 << 64) {
         out.push(DV::Int(0));
         out.push(DV::Int(i / 2));
         if *i > 0 {
